@@ -134,9 +134,10 @@ _ELEM_OF_KIND = {"f": "real", "i": "int", "u": "int", "b": "bool"}
 class Buffer(object):
     """A mutable cell holding an immutable content function.  In-place writes
     replace ``fn`` (never mutate it), so capturing ``buf.fn`` is a snapshot."""
-    __slots__ = ("fn", "shape", "kind", "elem", "name")
+    __slots__ = ("fn", "shape", "kind", "elem", "name", "tags")
 
     def __init__(self, fn, shape, kind, elem, name=None):
+        self.tags = {}
         self.fn = fn
         self.shape = tuple(shape)
         self.kind = kind
@@ -731,12 +732,18 @@ def _scalar_array(v):
 
 
 def asarray(a, dtype=None, order=None):
-    return array(a, dtype=dtype, copy=False)
+    return array(a, dtype=dtype, copy=None)
+
+
+NUMPY2_COPY_FALSE_RAISES = True     # NumPy >= 2: copy=False means "never copy" (checked by libcheck)
 
 
 def array(a, dtype=None, copy=True, order=None, ndmin=0):
     if hasattr(a, "__array__") and not isinstance(a, ndarray) and not is_sym(a):
         a = a.__array__()
+    if copy is False and NUMPY2_COPY_FALSE_RAISES:
+        if not isinstance(a, ndarray) or (dtype is not None and _kind_of_spec(dtype) != a.kind):
+            raise ValueError("Unable to avoid copy while creating an array as requested.")
     if isinstance(a, ndarray):
         if dtype is not None and _kind_of_spec(dtype) != a.kind:
             return _cast(a, _kind_of_spec(dtype), True)
